@@ -91,3 +91,15 @@ UNITS += [
          target="BitVectorRangeIterator_u64_0_init__u64_p_u64_u64_u64", contracts=ITER, quick_defines=QW, thorough_defines=TW, unwind=6, kind="bounded",
          bound_note="bit vectors of 1 word (quick) / 2 words (thorough)", note="establishes the iterator invariant"),
 ]
+
+UNITS += [
+    Unit(name="c09.alloc.alloc", props=["C09", "C14"], tiers=("dev",), tu=JA, roots=["asmjit::JitAllocator::alloc"],
+         stops=["asmjit::JitAllocator_new_block", "asmjit::JitAllocator_calculate_ideal_block_size",
+                "asmjit::JitAllocatorImpl_insertBlock", "asmjit::Lock::lock", "asmjit::Lock::unlock"],
+         target="JitAllocator_alloc", contracts="contracts/c09_alloc.h", replace=["Lock_lock", "Lock_unlock"],
+         quick_defines=QW, thorough_defines=TW, unwind=10, object_bits=9, mem_gb=28, timeout=1500,
+         unwindset=["JitAllocator_alloc_wrapped_for_contract_checking.0:3", "JitAllocator_alloc_wrapped_for_contract_checking.1:4", "BitVectorRangeIterator_u64_0_next_range.0:4", "BitVectorRangeIterator_u64_0_next_range.1:4", "JitAllocator_size_to_pool_id.0:2"], kind="bounded",
+         bound_note=BNK + "; granularity 64/128/256; one pool holding zero or one block; block creation fails (stub); request size any size_t",
+         note="modular: JitAllocatorBlock::mark_allocated_area replaced by its contract (unit c09.block.mark_allocated_area); BitVectorRangeIterator inlined",
+         trusted=["JitAllocator_new_block (fails), JitAllocator_calculate_ideal_block_size, Lock::lock/unlock: ASSUMED stubs/contracts"]),
+]
